@@ -211,4 +211,4 @@ require (
 )
 
 require github.com/goatnetwork/goat v0.0.0
-replace github.com/goatnetwork/goat => /tmp/wt-rev
+replace github.com/goatnetwork/goat => /repo
